@@ -594,6 +594,16 @@ type Clause struct {
 	Pkg   *types.Package // owning package of an axiom (nil: extern spec)
 }
 
+// SharedGuard: `shared a, b guarded_by l` -- the map / slice a (a parameter or captured
+// variable) is shared with other goroutines: every read or write of its contents in this
+// function needs lock l.
+type SharedGuard struct {
+	Name string
+	Expr *SNode
+	Lock *SNode
+	Line string
+}
+
 type Contract struct {
 	Key      string // function key or interface-method key
 	File     string
@@ -610,6 +620,7 @@ type Contract struct {
 	Decreases *Clause          // termination measure (integer expression over the parameters)
 	DecreasesList []Clause     // lexicographic components
 	sitesSeen   map[string]bool
+	Shared      []SharedGuard       // local data shared between goroutines, accessed only with a lock held
 	SiteAsserts map[string][]Clause // "<site class>#<ordinal>" -> assertions checked right before that instruction
 }
 
@@ -851,6 +862,29 @@ func ParseSpecText(path string, text string, raw bool) (*SpecFile, error) {
 				}
 			default:
 				return nil, fmt.Errorf("%s:%d: bad loop clause %q", path, l.no, w3)
+			}
+		case "shared":
+			if cur == nil {
+				return nil, fmt.Errorf("%s:%d: shared outside of a contract", path, l.no)
+			}
+			i := strings.Index(rest, " guarded_by ")
+			if i < 0 {
+				return nil, fmt.Errorf("%s:%d: bad shared line (expected: shared a, b guarded_by <lock>)", path, l.no)
+			}
+			lk, err := mkClause(rest[i+12:], l.no)
+			if err != nil {
+				return nil, err
+			}
+			for _, it := range splitTop(rest[:i], ',') {
+				it = strings.TrimSpace(it)
+				if it == "" {
+					continue
+				}
+				e, err := mkClause(it, l.no)
+				if err != nil {
+					return nil, err
+				}
+				cur.Shared = append(cur.Shared, SharedGuard{Name: it, Expr: e.Expr, Lock: lk.Expr, Line: e.Line})
 			}
 		case "site":
 			// site <class words>#<n> assert <expr>
